@@ -27,6 +27,10 @@ def setup(J):
                         mode = "dpor" if sum(lens) <= 3 else "delay"
                         jobs.append(comp(f"{comp_name}-l{''.join(map(str, lens))}-mo{v}", tier, {"comp": comp_name, "lens": ",".join(map(str, lens)), "buf": 1 if sum(lens) < 5 else 2},
                                          force_all=(v if v else -1), mode=mode, **({"delay": 1} if mode == "delay" else {})))
+            # the documented use of the parameter combinator: one process consuming all its out-ports in lock-step
+            if comp_name == "paramcombinator":
+                for lens in ("2,2", "1,3", "2,1,2"):
+                    jobs.append(comp(f"paramcombinator-l{lens.replace(',', '')}-one-consumer", tier, {"comp": "paramcombinator", "lens": lens, "buf": 1, "zip": 1}, mode="delay", delay=1))
             # streams beyond the buffer size, independent upstreams
             jobs.append(comp(f"{comp_name}-l32-buf1", tier, {"comp": comp_name, "lens": "3,2", "buf": 1}, mode="delay", delay=1))
             if not q:
